@@ -11,7 +11,7 @@ EXPLANATION = ('On type-checked MIR of logos-codegen: (a) inventory of every pan
                '(unwrap/expect, panicking::*, Index::index, documented-panic std/syn calls, overflow/bounds/division assertions): each must be in a justification table, '
                'new sites are reported; (b) single gate: Generator::new/generate are dominated by the None edge of Errors::render(parser.errors), no error can be recorded after it, '
                'every GraphError arm records an error; (c) sibling traversals of Hir recurse into every sub-expression (greedy dot check); (d) named, multi-field and empty variants '
-               'always record an error. Not decided: panics inside syn/regex-syntax/regex-automata on valid calls; running time of DFA construction.')
+               'always record an error; (e) the graph root is pushed unconditionally into the work list of the dead-end pruning (premise of the justification of expect("Unreachable state found")). Not decided: panics inside syn/regex-syntax/regex-automata on valid calls; running time of DFA construction.')
 
 
 def always_hits(fn, edge, target_blocks):
